@@ -278,6 +278,8 @@ def instances(tier):
         pp_ = dict(p)
         if quick and (i['factory'] in ('others', 'table', 'index') or (i['factory'] == 'column' and p.get('quoted'))):
             pp_['K'] = 1
+        if quick and i['factory'] == 'table':
+            pp_['fix'] = dict(p['fix'], h_alias=True)      # three parses per path: one selector fewer than in C01
         add('parsed/' + i['name'], 'parsed', {'factory': i['factory'], 'params': pp_}, T1 if quick else 6000, vacuous_if=vac)
     for which in ('column', 'item', 'enum', 'ref', 'group', 'project', 'sticky'):
         fx = None if (which == 'enum' or not quick) else {'schema': 1 if which in ('column', 'item') else 0}
